@@ -18,11 +18,10 @@ Fixpoint nodup_n (l : list N) : list N :=
 Definition prefix_threads (h : thread_fun) (n : name) : list N :=
   nodup_n (map (fun k => h (firstn k n)) (seq 0 (S (length n)))).
 
-(* dispatchData: a 6-byte PIT token names the thread (GetFWThread: nil beyond the thread count, index out of range at the
-   thread count itself); otherwise the Data goes to the thread of every prefix of its name *)
+(* dispatchData: a 6-byte PIT token names the thread (GetFWThread: nil from the thread count on, the Data is dropped); otherwise the Data goes to the thread of every prefix of its name *)
 Definition dispatch_data (T : N) (h : thread_fun) (d : data) : list N * bool :=
   match data_token (d_tok d) with
-  | Some (th, _) => if th =? T then ([], true) else if th <? T then ([th], false) else ([], false)
+  | Some (th, _) => if th <? T then ([th], false) else ([], false)
   | None => (prefix_threads h (d_name d), false)
   end.
 
